@@ -6,12 +6,17 @@ Require Import TT.Model.Str TT.Spec.TsLex TT.Spec.TsModule TT.Spec.TsObs.
 Import ListNotations.
 Local Open Scope list_scope.
 
-(* canonical text of an s-expression: atoms are length-prefixed by a separator that cannot be
-   confused with structure because every atom is wrapped in brackets with its own terminator *)
+(* canonical text of an s-expression. Every payload byte of an atom is preceded by an underscore and the
+   atom is closed by a bare > ; a list is bracketed. The print is a prefix code, hence injective
+   (Proofs/C13Oracle.v sx_show_inj). The round-6 printer wrote atoms as < bytes > without escaping and was
+   not injective: the list of the two atoms a, b and the single atom with the five bytes a > space < b had
+   the same print. *)
+Fixpoint esc (a : str) : str :=
+  match a with [] => [">"%char] | c :: r => "_"%char :: c :: esc r end.
 Fixpoint sx_show (s : sx) : str :=
   match s with
-  | SA a => L "<" ++ a ++ L ">"
-  | SL l => L "(" ++ flat_map (fun x => sx_show x ++ L " ") l ++ L ")"
+  | SA a => "<"%char :: esc a
+  | SL l => "("%char :: flat_map (fun x => sx_show x) l ++ [")"%char]
   end.
 
 Definition file_items (s : str) : option (list str) :=
